@@ -37,7 +37,8 @@ def py_index(ix):
             if "ellipsis" in e:
                 return Ellipsis
             if "array" in e:
-                return np.asarray(e["array"], dtype=np.int64).reshape(e.get("shape", [-1]))
+                arr_ = np.asarray(e["array"], dtype=np.dtype(e.get("dtype", "int64"))).reshape(e.get("shape", [-1]))
+                return mg.tensor(arr_) if e.get("as_tensor") else arr_        # an integer Tensor is an index array too
             if "bool" in e:
                 return np.asarray(e["bool"], dtype=bool).reshape(e["shape"])
         return e
